@@ -1438,13 +1438,22 @@ where
         );
         let mut outer_consts = mem::take(&mut self.injecting_consts);
         let mut outer_vars = mem::take(&mut self.injecting_vars);
+
+        // the parameter scope cannot see what the body declares: whatever the parameter
+        // defaults generate is declared by the enclosing scope
+        arrow_expr.params.visit_mut_with(self);
+        outer_consts.append(&mut self.injecting_consts);
+        outer_vars.append(&mut self.injecting_vars);
+
         let outer_slot_counter = self.slot_counter;
         let has_expr_body = matches!(&*arrow_expr.body, BlockStmtOrExpr::Expr(..));
         if has_expr_body {
             self.slot_counter = 1;
         }
 
-        arrow_expr.visit_mut_children_with(self);
+        arrow_expr.body.visit_mut_with(self);
+        arrow_expr.type_params.visit_mut_with(self);
+        arrow_expr.return_type.visit_mut_with(self);
         #[cfg(feature = "verif-trace")]
         verif::emit(
             "exit_arrow",
@@ -1495,8 +1504,8 @@ where
             self.slot_counter = outer_slot_counter;
         }
 
-        // whatever is still pending (generated in the parameters of a block-bodied arrow)
-        // belongs to the enclosing scope, like the declarations that were pending before
+        // whatever is still pending belongs to the enclosing scope, like the declarations
+        // that were pending before
         outer_consts.append(&mut self.injecting_consts);
         outer_vars.append(&mut self.injecting_vars);
         self.injecting_consts = outer_consts;
